@@ -261,8 +261,9 @@ impl<TS: TimeSource> BeaconSerializer<TS> {
         while let Some(found) = data[pos..].find(&begin) {
             pos += found;
             let start_pos = pos + begin.len();
-            if let Some(found) = data[pos..].find(&end) {
-                let end_pos = pos + found;
+            // the end marker is searched behind the begin marker, it may otherwise overlap with it
+            if let Some(found) = data[start_pos..].find(&end) {
+                let end_pos = start_pos + found;
                 peers.append(&mut self.peerlist_decode(&data[start_pos..end_pos], ttl_hours));
                 pos = start_pos
             } else {
